@@ -30,16 +30,21 @@ def admitted(ctx, sp, fn_stable, rule):
     if not fn:
         return None
     pa = ctx.pa(fn)
-    ln = find_link_and_now(pa, fn)
     sc = calls_to(fn, stable=CONN + "::get_score")
-    if ln is None or len(sc) != 1:
-        ctx.chk.missing(rule, "%s: is_timed_out / get_score sites" % sname(fn_stable),
-                        "is_timed_out %s, get_score sites %d" % ("found" if ln else "missing", len(sc)))
+    if len(sc) != 1:
+        ctx.chk.missing(rule, "%s: get_score site" % sname(fn_stable), "get_score sites %d" % len(sc))
         return None
-    link, now, _ = ln
     bb = sc[0][0]
-    # the scored link is the tested link
     arg0 = pa.fa.val_operand(sc[0][1]["args"][0], (bb, len(fn.blocks[bb]["stmts"])))
+    cfgf = ctx.cfg(fn)
+    loop = cfgf.innermost_loop_of(bb)
+    ln = find_link_and_now(pa, fn, within=loop[1] if loop else None)
+    if ln is None:
+        # the loop has no liveness test at all: alias the scored link, the clock stays unnamed
+        link, now = arg0, ("param", 3 if fn.argc >= 4 else 2)
+    else:
+        link, now, _ = ln
+    # the scored link is the tested link
     ctx.chk.ob(rule, "%s scores the link it tested" % sname(fn_stable), arg0 == link,
                "get_score(%s) vs is_timed_out(%s)" % (show(arg0, fn.names), show(link, fn.names)),
                key="%s:scored-link-is-tested-link:%s" % (rule, fn_stable))
@@ -308,9 +313,8 @@ def d7_hysteresis(ctx):
         return
     pa = ctx.pa(enh)
     sp = LinkSpace()
-    ln = find_link_and_now(pa, enh)
     cl = [l for l, n in enh.names.items() if n == "current_score"]
-    if ln is None or len(cl) != 1:
+    if len(cl) != 1:
         ctx.chk.missing("D7", "enhanced: current_score / link", "")
         return
     cur = cl[0]
